@@ -300,6 +300,8 @@ class Ctx:
     # ---- TLC
     def tlc(self, module, cfg, count=True, **kw):
         kw.setdefault("timeout", 900 if self.tier == "quick" else 7200)
+        if self.tier == "quick":       # short runs: skip the optimising JIT (halves CPU time of 2-10 s runs)
+            kw.setdefault("java_opts", ["-XX:TieredStopAtLevel=1"])
         r = run_tlc(module, cfg, self.work, **kw)
         self.tlc_runs.append({"module": module, "generated": r.generated, "distinct": r.distinct,
                               "depth": r.depth, "wall_s": round(r.wall, 2), "violated": r.violated})
@@ -463,7 +465,11 @@ def validate_traces(ctx, module, cfg, traces, extra_env=None, workers=1, control
     for v in r.printed.get("ACCEPTED", []):
         acc.add(v if isinstance(v, int) else v[0])
     bad = [i for i in acc if i > nreal]
-    if bad:
+    all_real_accepted = all(i in acc for i in range(1, nreal + 1))
+    # controls are corrupted copies of recorded traces: when the code under test is broken a
+    # corruption can accidentally repair an already wrong trace, so an accepted control only
+    # proves vacuity when every real trace of the batch was accepted
+    if bad and all_real_accepted:
         raise MachineryError("trace module %s accepted %d corrupted control trace(s): binding is vacuous" % (module, len(bad)))
     ctx.extra["negative_controls_rejected"] = ctx.extra.get("negative_controls_rejected", 0) + len(controls)
     prog = {}
